@@ -141,9 +141,28 @@ namespace
     // one run of the scenario; fail_at < 0: no injection. returns number of upstream attempts
     std::size_t g_budget = std::size_t(-1); // peak upstream bytes of the baseline run: the failure runs must get by with it
 
+    // the out_of_memory handler may, as documented, throw an exception of its own (derived from std::bad_alloc) instead of returning;
+    // it must be consulted again at the next failure all the same
+    struct handler_refusal : std::bad_alloc
+    {
+    };
+    bool g_oom_handler_throws = false;
+    struct throwing_handler_scope
+    {
+        explicit throwing_handler_scope(bool on)
+        {
+            g_oom_handler_throws = on;
+        }
+        ~throwing_handler_scope()
+        {
+            g_oom_handler_throws = false;
+        }
+    };
+
     template <class K>
     long scenario(std::uint64_t seed, long fail_at, int fail_kind, int ops, const std::string& kind)
     {
+        throwing_handler_scope handler_mode(fail_at >= 0 && fail_kind == 1 && (fail_at / 2) % 2 == 0);
         using A   = typename K::A;
         using tr  = allocator_traits<A>;
         using ctr = composable_allocator_traits<A>;
@@ -523,6 +542,14 @@ int main(int argc, char** argv)
 {
     auto a = parse_args(argc, argv, "h_fail");
     install_recording_handlers();
+    out_of_memory::set_handler([](const allocator_info&, std::size_t) {
+        ++hl().oom;
+        if (g_oom_handler_throws)
+        {
+            count("oom_handler_threw");
+            throw handler_refusal();
+        }
+    });
     cx().nontrivial_rule = [](const std::set<std::string>& f) { return f.count("faults") || f.count("refused"); };
     both<pool_kind<node_pool, false>>(a);
     both<pool_kind<array_pool, false>>(a);
